@@ -131,12 +131,17 @@ func C01(c *core.Ctx) {
 // be above the packet limit of 16 KiB rings): the length field has boundaries of
 // its own (127/128, multiples of 128) that the framing code of the connection
 // has to get right before the codec sees the packet.
-func c01framing(c *core.Ctx) {
+func c01framing(c *core.Ctx) { framingSweep(c, "C01") }
+
+// framingSweep: publishes with every remaining length 5..300, from the network (forwarded
+// byte for byte), through Server.Publish (encoded from the fields) and downgraded on the
+// way to a QoS 0 subscription (re-encoded).
+func framingSweep(c *core.Ctx, prop string) {
 	var hist []Action
-	hist = append(hist, conn("A", "a", true), conn("B", "b", true), sub("A", 1, "a/b", 1))
+	hist = append(hist, conn("A", "a", true), conn("B", "b", true), sub("A", 1, "a/b", 1), conn("Z", "z", true), sub("Z", 2, "a/b", 0))
 	n := 0
 	flush := func() bool {
-		if len(hist) <= 3 {
+		if len(hist) <= 5 {
 			return true
 		}
 		spec := &HistSpec{Name: "framing", Comps: map[string]bool{"route": true, "stream": true, "closed": true, "acks": true}}
@@ -146,11 +151,11 @@ func c01framing(c *core.Ctx) {
 		c.Rep.States++
 		c.Rep.Transitions += int64(r.Steps)
 		if r.Violation != "" {
-			if c.Violate("C01 framing :: "+violClass(r.Violation), core.Replay{Scenario: "framing: publishes with remaining lengths " + hist[3].String() + " ...", Message: r.Violation}) {
+			if c.Violate(prop+" framing :: "+violClass(r.Violation), core.Replay{Scenario: "framing: publishes with remaining lengths " + hist[5].String() + " ...", Message: r.Violation}) {
 				return false
 			}
 		}
-		hist = hist[:3]
+		hist = hist[:5]
 		return true
 	}
 	for L := 5; L <= 300; L++ {
@@ -162,7 +167,9 @@ func c01framing(c *core.Ctx) {
 		hist = append(hist, pub("B", "a/b", 0, 0, big(L-5, byte(L))))
 		if L >= 7 {
 			hist = append(hist, pub("B", "a/b", 1, uint16(1000+L), big(L-7, byte(L+1))))
+			hist = append(hist, Action{Kind: "lpub", Topic: "a/b", QoS: 1, Payload: big(L-7, byte(L+2))})
 		}
+		hist = append(hist, Action{Kind: "lpub", Topic: "a/b", QoS: 0, Payload: big(L-5, byte(L+3))})
 		if L%8 == 7 {
 			if !flush() {
 				return
